@@ -191,6 +191,16 @@ def chk_split(c):
     ev1, ev2 = np.sort(np.linalg.eigvalsh(A)), np.sort(np.linalg.eigvalsh(A_full))
     assert np.max(np.abs(ev1 - ev2)) <= 1e-12, 'glued system differs from the undivided one (spectrum)'
     assert np.allclose(np.sort(A.sum(axis=1)), np.sort(A_full.sum(axis=1)), atol=1e-13)
+    # the library's own multipatch assembly: matrix = sum_p X_p A_p X_p^T, load vector = sum_p X_p b_p (right-hand side f = 1 + x + 2y)
+    from pyiga import vform
+    args = {'f': lambda x, y: 1.0 + x + 2.0 * y}
+    A_sys, b_sys = mp.assemble_system(vform.mass_vf(2), vform.L2functional_vf(2, physical=True), args=dict(args))
+    assert np.max(np.abs(A_sys.toarray() - A)) <= 1e-13, 'assemble_system: matrix differs from sum_p X_p A_p X_p^T'
+    b_ref = np.zeros(n_glob)
+    for k, (kvs, geo) in enumerate(patches):
+        b_ref += mp.patch_to_global(k) @ assemble.inner_products(kvs, args['f'], f_physical=True, geo=geo).ravel()
+    assert np.max(np.abs(b_sys - b_ref)) <= 1e-12, 'assemble_system: load vector differs from sum_p X_p b_p (max %g)' % np.max(np.abs(b_sys - b_ref))
+    assert abs(b_sys.sum() - (1.0 + 0.5 + 1.0)) <= 1e-12, 'assemble_system: integral of f over the unit square'
     # multipatch boundary data address glued dofs
     idx, vals = mp.compute_dirichlet_bcs([(0, 'left' if not c.get('swap') else 'right', lambda x, y: 1.0 + 0 * x),
                                           (1, 'right' if not c.get('swap') else 'left', lambda x, y: 1.0 + 0 * x)])
